@@ -35,7 +35,7 @@ def leaves(tier):
             "list-challenge", "list-secure", "dict-bytes", "dict-secure", "list-int", "dict-typed", "list-any", "dict-any", "any", "bool",
             "list-list", "int09", "list-str-req", "dict-byteskey", "bool-t", "int-dflt-nonzero", "str-dflt", "str-norm"]
     if tier == "thorough":
-        base += ["secure-best", "dict-challenge", "str-norm", "net", "host", "port", "loglevel", "appmode", "url", "ipv4", "float", "challenge-dflt",
+        base += ["secure-best", "dict-challenge", "net", "host", "port", "loglevel", "appmode", "url", "ipv4", "float", "challenge-dflt",
                  "list-int-cd", "dict-any-dflt", "list-any-dflt", "str-regex-req", "int-req", "file"]
     return base
 
